@@ -78,6 +78,19 @@ def calls():
     for i, qs in enumerate(QUERIES):
         cs.append((f"query:{i}", lambda o, qs=qs: [tuple(r) if hasattr(r, "__iter__") else r for r in o.query(qs)]))
 
+    # prepared queries: the SAME query object evaluated twice (state must not leak through the algebra tree)
+    PREPARED = ["SELECT ?s ?o WHERE { ?s ?p ?o } ORDER BY DESC(?p) ?o ?s",
+                "SELECT ?s ?p WHERE { ?s ?p ?o } ORDER BY ?o DESC(?s) LIMIT 3",
+                "SELECT ?s (COUNT(?o) AS ?n) WHERE { ?s ?p ?o } GROUP BY ?s ORDER BY DESC(?n) ?s"]
+    for i, qs in enumerate(PREPARED):
+        def run_prepared(o, qs=qs, cache={}):
+            from rdflib.plugins.sparql import prepareQuery
+            if id(o) not in cache:
+                cache.clear()
+                cache[id(o)] = prepareQuery(qs)
+            return [tuple(map(str, r)) for r in o.query(cache[id(o)])]
+        cs.append((f"prepared:{i}", run_prepared))
+
     def compare(o):
         from rdflib.compare import isomorphic, to_isomorphic, to_canonical_graph, graph_diff, similar
         from rdflib import Graph
@@ -156,7 +169,11 @@ class ReadsArePure(Suite):
         after = snapshot(obj)
         if after != before:
             return f"mutates-on-repeat: {cname} on {name}"
-        if cname.startswith("serialize") or cname.startswith("query") or cname == "iterate-slice-path":
+        if cname.startswith("prepared"):
+            if r1 != r2:
+                return (f"not-repeatable: {cname} on {name}: the same prepared query evaluated twice on the unchanged "
+                        f"graph gave different (ordered) answers: {str(r1)[:120]} vs {str(r2)[:120]}")
+        elif cname.startswith("serialize") or cname.startswith("query") or cname == "iterate-slice-path":
             def norm(x):
                 if isinstance(x, (bytes, str)):
                     return sorted(x.splitlines()) if isinstance(x, str) else x
